@@ -4,6 +4,7 @@ from mirq import ty_str
 from mirq.cfg import CFG
 from mirq.depend import Dependence
 from mirq.origin import Origins, show, walk, dominating_guards, lit_truth, decisions, calls_in
+from mirq.paths import Paths, Unsupported, variant_of, ptr_root, show_fact, show_eff
 
 LOADSTORE = "embedded_graphics_core::pixelcolor::raw::load_store::LoadStore"
 DATAORDER = "embedded_graphics_core::pixelcolor::raw::DataOrder"
@@ -256,7 +257,27 @@ def subst_const(t, name, val):
     return subst(t, lambda n: ("const", val) if n[0] == "const" and isinstance(n[1], str) and n[1].startswith(name) else None)
 
 
+def _fact_holds(f, bits):
+    """truth of a fact over constants once BITS_PER_PIXEL is known (None: not such a fact)"""
+    if f[0] not in ("lt", "le", "eq", "ne"):
+        return None
+    try:
+        a = _eval_int(subst_const(f[1], BPP, bits), {})
+        b = _eval_int(subst_const(f[2], BPP, bits), {})
+    except (ValueError, KeyError, ZeroDivisionError):
+        return None
+    return {"lt": a < b, "le": a <= b, "eq": a == b, "ne": a != b}[f[0]]
+
+
+def lin_len(t):
+    """like lin() but len may be spelled PtrMetadata(self.data)"""
+    from mirq.origin import subst
+    t = subst(t, lambda n: ("call", "core::slice::<impl [T]>::len", (), (n[2],)) if n[0] == "un" and n[1] == "PtrMetadata" else None)
+    return lin(t, None)
+
+
 def check_iterator(prog, rep):
+    """R11.3 / R11.6 on path summaries: what next(), nth() and size_hint() do on each of their paths."""
     adt = prog.adts.get(ITER)
     if not adt:
         rep.fail("R11.6", "anchor", "RawDataIterator not found", status="undecided")
@@ -267,40 +288,33 @@ def check_iterator(prog, rep):
     nxt = prog.method1(ITER, "next", it_trait)
     nth = prog.method1(ITER, "nth", it_trait)
     sh = prog.method1(ITER, "size_hint", it_trait)
-    self_index = ("field", ("deref", ("param", 1, "self")), I_INDEX)
-    self_data = ("field", ("deref", ("param", 1, "self")), I_DATA)
+    self_index = ("field", ("param", 1, "self"), I_INDEX)
+    self_data = ("field", ("param", 1, "self"), I_DATA)
+    P = Paths(prog)
 
     # R11.3 size_hint
-    decs = decisions(sh)
-    table = {}
-    for lits, ret, _ in decs:
-        key = None
-        for d, lit in lits:
-            if d[0] == "bin" and d[1] in ("Ge", "Lt", "Gt", "Le") and any(isinstance(x, tuple) and x[0] == "const" and isinstance(x[1], str) and x[1].startswith(BPP) for x in d[2:4]):
-                key = (d, lit)
-        table[key] = ret
-    ok_all = True
-    for raw, bits in sorted(RAW_BITS.items(), key=lambda kv: kv[1]):
-        # pick the path whose guard holds for this bpp
-        chosen = []
-        for key, ret in table.items():
-            if key is None:
-                chosen.append(ret)
-                continue
-            d, lit = key
-            a = _eval_int(subst_const(d[2], BPP, bits), {}) if True else None
-            b = _eval_int(subst_const(d[3], BPP, bits), {})
-            truth = {"Ge": a >= b, "Lt": a < b, "Gt": a > b, "Le": a <= b}[d[1]]
-            if lit_truth(lit) == truth:
-                chosen.append(ret)
+    try:
+        summs = P.of(sh)
+    except Unsupported as e:
+        summs = None
+        rep.fail("R11.3", "size_hint", "cannot summarise size_hint: %s" % e, status="undecided", at=sh.span, fn=sh.path)
+    ok_all = summs is not None
+    for raw, bits in sorted(RAW_BITS.items(), key=lambda kv: kv[1]) if summs is not None else []:
         key = "size_hint:" + raw
-        if len(chosen) != 1:
-            rep.fail("R11.3", key, "cannot select the size_hint path for %d bpp" % bits, status="undecided", at=sh.span, fn=sh.path)
+        chosen = []
+        undecidable = False
+        for sm in summs:
+            tv = [_fact_holds(f, bits) for f in sm.facts]
+            if any(v is None for v in tv):
+                undecidable = True
+            elif all(tv):
+                chosen.append(sm)
+        if undecidable or len(chosen) != 1:
+            rep.fail("R11.3", key, "cannot select the size_hint path for %d bpp (%d candidates)" % (bits, len(chosen)), status="undecided", at=sh.span, fn=sh.path)
             ok_all = False
             continue
-        ret = subst_const(chosen[0], BPP, bits)
-        # expected: (size, Some(size)) with size = saturating_sub(pixels_total, self.index)
-        good = ret[0] == "agg" and ret[1] == "tuple" and len(ret[2]) == 2
+        ret = subst_const(chosen[0].ret, BPP, bits)
+        good = ret[0] == "agg" and ret[1] == "tuple" and len(ret[2]) == 2 and not chosen[0].effects
         size = ret[2][0] if good else None
         upper = ret[2][1] if good else None
         good = good and upper[0] == "agg" and upper[1].endswith("Option::Some") and upper[2][0] == size
@@ -308,7 +322,7 @@ def check_iterator(prog, rep):
         if good:
             good = size[0] == "call" and size[1].endswith("saturating_sub") and size[3][1] == self_index
             if good:
-                coeff = lin(size[3][0], None)
+                coeff = lin_len(size[3][0])
         want = Fraction(8, bits)
         if not good:
             rep.fail("R11.3", key, "size_hint must return (n, Some(n)) with n = pixels_total.saturating_sub(self.index); found %s" % show(ret),
@@ -323,58 +337,65 @@ def check_iterator(prog, rep):
     if ok_all:
         rep.sample({"rule": "R11.3", "size_hint": "pixels_total = (8/bpp) * len for all 7 raw types"})
 
-    # R11.6 next(): load at (data, index); index += 1 only inside the Some-continuation
-    org = Origins(nxt)
-    loads = [(bi, t) for bi, t in _calls(nxt) if t["f"].get("name") == "load" and t["f"].get("trait", "").endswith("RawData")]
-    good = len(loads) == 1
-    if good:
-        bi, t = loads[0]
-        args = org.term_args(bi)
-        good = args[0] == self_data and args[1] == self_index
-        ga = [ty_str(a) for a in t["f"]["args"] if a != "'_"]
-        good = good and ga == ["R", "O"]
-    rep.check(good, "R11.6", "next:load", "next() must return R::load::<O>(self.data, self.index)", at=nxt.span, fn=nxt.path)
-    # index writes in next and its closures
-    writes = []
-    for g in fn_family(prog, nxt):
-        go = Origins(g)
-        for bi in sorted(go.cfg.live_blocks()):
-            for si, s in enumerate(g.body["blocks"][bi]["s"]):
-                if s["k"] == "assign" and s["place"]["p"]:
-                    tree = go._apply(go._local(s["place"]["l"], (), bi, si), ())
-                    val = go._rvalue(s["rv"], bi, si)
-                    writes.append((g, s["place"], val))
-    # exactly one write: inside the closure given to Option::inspect / map, value = index + 1
-    w_ok = False
-    if len(writes) == 1:
-        g, pl, val = writes[0]
-        w_ok = g.kind == "closure" and val[0] == "bin" and val[1] == "Add" and ("const", 1) in val[2:4]
-        # the closure must be passed to a Some-only combinator
-        parent = nxt
-        comb = [t["f"].get("name") for _, t in _calls(parent) if any(isinstance(a, dict) and ("move" in a or "copy" in a) for a in t["args"]) and "closure" in str(t["f"].get("args"))]
-        w_ok = w_ok and comb and all(c in ("inspect", "map", "and_then", "filter_map") for c in comb)
-    rep.check(w_ok, "R11.6", "next:advance", "next() must advance index by exactly 1 and only when load returned Some (found %d index writes)" % len(writes),
-              at=nxt.span, fn=nxt.path, detail=[show(w[2]) for w in writes])
+    # R11.6 next(): on every path the item is R::load::<O>(self.data, self.index); index += 1 exactly on the Some paths
+    def is_load(t):
+        return t[0] == "call" and t[1].endswith("RawData::load") and len(t[3]) == 2
+    try:
+        summs = P.of(nxt)
+    except Unsupported as e:
+        summs = []
+        rep.fail("R11.6", "next:load", "cannot summarise next(): %s" % e, status="undecided", at=nxt.span, fn=nxt.path)
+    bad_load, bad_adv = [], []
+    loads = set()
+    for sm in summs:
+        ls = [f for f in sm.facts if f[0] == "variant" and is_load(f[1])]
+        for f in ls:
+            loads.add(f[1])
+        vo = variant_of(sm.ret)
+        if len(ls) != 1 or vo is None:
+            bad_load.append("a path of next() does not return the outcome of one load: returns %s" % show(sm.ret, maxd=4))
+            continue
+        L, names = ls[0][1], ls[0][2]
+        if L[3] != (self_data, self_index) or tuple(L[2]) != ("R", "O"):
+            bad_load.append("next() loads %s" % show(L, maxd=4))
+        if names == ("None",):
+            if vo[1] != "None":
+                bad_load.append("load returned None but next() returns %s" % show(sm.ret, maxd=4))
+            if sm.effects:
+                bad_adv.append("index is modified although load returned None")
+        elif names == ("Some",):
+            if sm.ret != ("agg", "core::option::Option::Some", (("payload", L),)):
+                bad_load.append("load returned Some but next() returns %s" % show(sm.ret, maxd=4))
+            w = sm.writes()
+            okw = len(sm.effects) == 1 and len(w) == 1 and w[0][1] == self_index and w[0][2] in (("bin", "Add", ("const", 1), self_index), ("bin", "Add", self_index, ("const", 1)))
+            if not okw:
+                bad_adv.append("on the Some path the effects are [%s]" % "; ".join(show_eff(e) for e in sm.effects))
+        else:
+            bad_load.append("a path does not distinguish Some from None")
+    if summs:
+        rep.check(not bad_load and len(loads) == 1, "R11.6", "next:load", "next() must return R::load::<O>(self.data, self.index): " + "; ".join(sorted(set(bad_load))[:3]), at=nxt.span, fn=nxt.path)
+        rep.check(not bad_adv, "R11.6", "next:advance", "next() must advance index by exactly 1 and only when load returned Some: " + "; ".join(sorted(set(bad_adv))[:3]), at=nxt.span, fn=nxt.path)
 
     # nth: self.index = self.index.saturating_add(n) on every path, then next()
-    org = Origins(nth)
-    cfg = org.cfg
-    wr = []
-    for bi in sorted(cfg.live_blocks()):
-        for si, s in enumerate(nth.body["blocks"][bi]["s"]):
-            pl = s.get("place")
-            if s["k"] == "assign" and pl["l"] == 1 and [e for e in pl["p"] if isinstance(e, dict) and e.get("f") == I_INDEX]:
-                wr.append((bi, org._rvalue(s["rv"], bi, si)))
+    try:
+        summs = P.of(nth)
+    except Unsupported as e:
+        summs = []
+        rep.fail("R11.6", "nth:advance", "cannot summarise nth(): %s" % e, status="undecided", at=nth.span, fn=nth.path)
     n_param = ("param", 2, "n")
-    good = len(wr) == 1 and wr[0][1][0] == "call" and wr[0][1][1].endswith("saturating_add") and set(wr[0][1][3]) == {self_index, n_param}
-    if good:
-        good = all(cfg.dominates(wr[0][0], e) for e in cfg.exits())
-    ret = org.return_origin()
-    good2 = ret[0] == "call" and ret[1].endswith("Iterator>::next") or (ret[0] == "call" and ret[1] == nxt.path)
-    rep.check(good, "R11.6", "nth:advance", "nth(n) must add n (saturating) to index on every path, also when it overshoots the data; found %s"
-              % [show(w[1]) for w in wr], at=nth.span, fn=nth.path)
-    rep.check(good2, "R11.6", "nth:then-next", "nth(n) must return self.next() after skipping; found %s" % show(ret), at=nth.span, fn=nth.path)
-    rep.sample({"rule": "R11.6", "nth_index_write": [show(w[1]) for w in wr], "nth_returns": show(ret)})
+    good, good2, seen = bool(summs), bool(summs), []
+    for sm in summs:
+        w = sm.writes()
+        seen += [show_eff(e) for e in sm.effects]
+        okw = len(w) == 1 and w[0][1] == self_index and w[0][2][0] == "call" and w[0][2][1].endswith("saturating_add") and set(w[0][2][3]) == {self_index, n_param}
+        calls = sm.calls()
+        okc = len(calls) == 1 and (calls[0][1][1].endswith("Iterator>::next") or calls[0][1][1] == nxt.path) and ptr_root(calls[0][1])[:2] == ("param", 1)
+        order = okw and okc and sm.effects.index(w[0]) < sm.effects.index(calls[0])
+        good = good and okw and len(sm.effects) == 2 and order
+        good2 = good2 and okc and sm.ret[0] == "call" and sm.ret[:4] == calls[0][1][:4]
+    rep.check(good, "R11.6", "nth:advance", "nth(n) must add n (saturating) to index on every path, also when it overshoots the data, before calling next(); found %s" % seen[:4], at=nth.span, fn=nth.path)
+    rep.check(good2, "R11.6", "nth:then-next", "nth(n) must return self.next() after skipping; found %s" % [show(sm.ret, maxd=3) for sm in summs][:3], at=nth.span, fn=nth.path)
+    rep.sample({"rule": "R11.6", "nth_effects": seen[:4]})
 
 
 # ---- R11.7 slot agreement: which bytes are selected, and when the access is rejected -------------
@@ -414,6 +435,15 @@ def _lin(t, bits):
             if a == (1, 1, 0):
                 return (1, b[2], 0)
         raise Undecided("arith %s" % op)
+    if k == "payload":
+        inner = t[1]
+        if inner[0] == "call" and inner[1].endswith("::checked_mul"):
+            return _lin(("bin", "Mul", inner[3][0], inner[3][1]), bits)
+        if inner[0] == "call" and inner[1].endswith("::checked_add"):
+            return _lin(("bin", "Add", inner[3][0], inner[3][1]), bits)
+        raise Undecided("payload of %s" % show(inner, maxd=3))
+    if k == "cast":
+        return _lin(t[1], bits)
     if k == "field" and t[2] == 0 and t[1][0] == "variant" and t[1][2] in ("Continue", "Some", "Ok"):
         # payload of `x.checked_mul(c)?` / `.ok_or(..)?`: the product itself (overflow = rejection, handled by the caller)
         inner = t[1][1]
@@ -510,9 +540,27 @@ def fmt_lin(l):
     return s
 
 
+def _len_of(t):
+    """buffer.len(): PtrMetadata in MIR, a call in older forms"""
+    return (t[0] == "un" and t[1] == "PtrMetadata" and t[2][0] == "param" and t[2][2] == "buffer") or \
+           (t[0] == "call" and t[1].endswith("<impl [T]>::len") and t[3] and t[3][0][0] == "param" and t[3][0][2] == "buffer")
+
+
+def _is_access(t):
+    """a slice access rooted in `buffer`"""
+    if t[0] != "call":
+        return False
+    n = t[1].split("::")[-1]
+    if n in ("get", "get_mut", "nth", "index", "index_mut", "split_at", "split_at_mut", "first", "last", "get_unchecked", "get_unchecked_mut"):
+        r = ptr_root(t)
+        return r[0] == "param" and r[2] == "buffer"
+    return False
+
+
 def check_slots(prog, rep, impls):
-    from mirq.expand import Expander
-    ex = Expander(prog)
+    """R11.7 on path summaries (mirq.paths): every way load/store can return is classified as accepting or rejecting;
+    accepting paths must have established exactly the pixel's own byte slot, rejecting paths must have no effect."""
+    P = Paths(prog)
     for impl in sorted(impls, key=short_raw):
         raw = short_raw(impl)
         bits = RAW_BITS[raw]
@@ -520,68 +568,112 @@ def check_slots(prog, rep, impls):
         for nm in ("load", "store"):
             f = prog.fns[impl["fns"][nm]]
             key = "%s:%s" % (raw, nm)
-            tree = ex.inline(ex.ret(f), only=lambda p: "load_store" in p)
-            # the selected slot is the subject of the outermost map/ok_or chain
-            subj = tree
-            if subj[0] == "phi":
-                # alternatives that reject because `index * N` overflows usize (checked_mul(..)?) select nothing:
-                # such an index needs more than usize::MAX bytes, i.e. more than any buffer holds
-                rest = []
-                for alt in subj[1]:
-                    rej = alt[0] == "call" and alt[1].endswith("from_residual") and any(n[0] == "call" and n[1].endswith(("::checked_mul", "::checked_add")) for n in walk(alt))
-                    if not rej:
-                        rest.append(alt)
-                if len(rest) == 1:
-                    subj = rest[0]
-            while True:
-                if subj[0] == "comb" and subj[1] in ("map", "inspect"):
-                    subj = subj[2]
-                elif subj[0] == "call" and subj[1].endswith("::map") and subj[3]:
-                    subj = subj[3][0]
-                elif subj[0] == "call" and (subj[1].endswith("::ok_or") or subj[1].endswith("::copied")):
-                    subj = subj[3][0]
-                else:
-                    break
             try:
-                got = slot(subj, bits)
-            except Undecided as e:
-                rep.fail("R11.7", key, "cannot derive the byte slot selected by %s: %s" % (nm, e), status="undecided", at=f.span, fn=f.path, detail=show(subj, maxd=8))
+                summs = P.of(f)
+            except Unsupported as e:
+                rep.fail("R11.7", key, "cannot summarise the paths of %s: %s" % (nm, e), status="undecided", at=f.span, fn=f.path)
                 continue
-            rep.check(got == want, "R11.7", key,
-                      "%s selects bytes [%s ; len %s] and succeeds iff buffer.len() >= %s, but pixel %s of %d bits needs [%s ; len %s] and len >= %s (index beyond the buffer must be rejected, only the pixel's own bytes touched)"
-                      % (nm, fmt_lin(got[0]), got[1], fmt_lin(got[2]), "index", bits, fmt_lin(want[0]), want[1], fmt_lin(want[2])),
-                      at=f.span, fn=f.path, detail={"slot": [fmt_lin(got[0]), got[1], fmt_lin(got[2])]})
-            if nm == "load":
-                rep.sample({"rule": "R11.7", "raw": raw, "slot_offset": fmt_lin(got[0]), "slot_len": got[1], "min_buffer_len": fmt_lin(got[2])})
-        # writes in store stay inside the slot: every store through a pointer in the store family
-        # goes through the closure's payload parameter; &mut [u8] is only handed to known functions
-        st = prog.fns[impl["fns"]["store"]]
-        bad = []
-        for g in fn_family(prog, st):
-            go = Origins(g)
-            for bi in sorted(go.cfg.live_blocks()):
-                blk = g.body["blocks"][bi]
-                for si, s in enumerate(blk["s"]):
-                    if s["k"] == "assign" and "*" in s["place"]["p"]:
-                        base = go._local(s["place"]["l"], (), bi, si)
-                        if not (g.kind == "closure" and base[0] == "param" and base[1] == 2):
-                            bad.append("write through %s in %s" % (show(base), g.key()))
-                t = blk["t"]
-                if t and t["k"] == "call":
-                    nmn = t["f"].get("name")
-                    for ai, a in enumerate(t["args"]):
-                        l = (a.get("move") or a.get("copy") or {}).get("l")
-                        if l is None:
+            problems, undecided, slots_seen, n_acc, n_rej = [], [], set(), 0, 0
+            writes_bad = []
+            for sm in summs:
+                vo = variant_of(sm.ret)
+                opaque_map = None
+                if vo is None and sm.ret[0] == "comb" and sm.ret[1] == "map" and variant_of(sm.ret[2]) is not None:
+                    # a `map` whose closure could not be summarised (it loops): the variant is that of its subject
+                    vo = variant_of(sm.ret[2])
+                    opaque_map = sm.ret[2]
+                if vo is None or vo[1] not in ("Some", "Ok", "None", "Err"):
+                    undecided.append("a path returns %s, neither a constructed success nor a rejection" % show(sm.ret, maxd=4))
+                    continue
+                if vo[1] in ("None", "Err"):
+                    n_rej += 1
+                    if sm.effects:
+                        problems.append("a rejecting path has an effect: %s" % "; ".join(show_eff(e) for e in sm.effects[:2]))
+                    continue
+                n_acc += 1
+                # what the accepting path has established about the buffer
+                req = None
+                chains = []
+                try:
+                    for fct in sm.facts:
+                        if fct[0] == "variant" and _is_access(fct[1]):
+                            if fct[2] != ("Some",):
+                                raise Undecided("accepting although %s" % show_fact(fct))
+                            sl = slot(fct[1], bits)
+                            chains.append((fct[1], sl))
+                            req = sl[2] if req is None else _max(req, sl[2])
+                        elif fct[0] == "variant" and fct[1][0] == "call" and fct[1][1].endswith(("::checked_mul", "::checked_add", "::try_into", "::try_from")):
+                            if fct[2] not in (("Some",), ("Ok",)):
+                                raise Undecided("accepting although %s" % show_fact(fct))
+                        elif fct[0] in ("true", "false") and fct[1][0] == "const" and isinstance(fct[1][1], str) and fct[1][1].startswith(ALT):
+                            pass
+                        elif fct[0] in ("le", "lt") and _len_of(fct[2]):
+                            e = _lin(fct[1], bits)
+                            if fct[0] == "lt":
+                                e = (e[0], e[1], e[2] + 1)
+                            req = e if req is None else _max(req, e)
+                        elif fct[0] in ("le", "lt") and _len_of(fct[1]):
+                            raise Undecided("accepting under an upper bound on the buffer length (%s)" % show_fact(fct))
+                        else:
+                            raise Undecided("acceptance depends on %s" % show_fact(fct))
+                    # the data actually used: payloads of access chains in the result and the effects
+                    used = []
+                    trees = [sm.ret] + [x for e in sm.effects for x in e[1:] if isinstance(x, tuple)]
+                    if opaque_map is not None and nm == "store":
+                        writes_bad.append("unknown effect: the closure handed to map() on %s" % show(opaque_map, maxd=4))
+                    for tr in trees:
+                        for n in walk(tr):
+                            if n[0] == "payload" and _is_access(n[1]):
+                                used.append(n[1])
+                            elif n[0] == "call" and n[1].split("::")[-1] in ("index", "index_mut") and _is_access(n):
+                                used.append(n)
+                            elif n[0] == "index" and ptr_root(n)[0] == "param" and ptr_root(n)[2] == "buffer":
+                                raise Undecided("direct indexing %s" % show(n, maxd=4))
+                    used = list(dict.fromkeys(used))
+                    maximal = [u for u in used if not any(u != v and any(x == u for x in walk(v)) for v in used)]
+                    if nm == "load" and not maximal:
+                        # value assembled through a local copy: the established chain is what was read
+                        maximal = [c for c, _ in chains if not any(c != d and any(x == c for x in walk(d)) for d, _ in chains)]
+                    if not maximal:
+                        raise Undecided("no access to the buffer on an accepting path")
+                    for u in maximal:
+                        sl = slot(u, bits)
+                        slots_seen.add((fmt_lin(sl[0]), sl[1]))
+                        if (sl[0], sl[1]) != (want[0], want[1]):
+                            problems.append("%s uses bytes [%s ; len %s], pixel `index` of %d bits occupies [%s ; len %s]" % (nm, fmt_lin(sl[0]), sl[1], bits, fmt_lin(want[0]), want[1]))
+                    if req is None or req != want[2]:
+                        problems.append("%s succeeds when buffer.len() >= %s, but the pixel needs len >= %s (an index beyond the buffer must be rejected, and only such an index)"
+                                        % (nm, fmt_lin(req) if req else "0", fmt_lin(want[2])))
+                    # effects: only stores into the slot
+                    for e in sm.effects:
+                        tgt = e[1] if e[0] == "write" else (e[1][3][0] if e[1][0] == "call" and e[1][1].endswith("copy_from_slice") and e[1][3] else None)
+                        if nm == "load":
+                            writes_bad.append("load has an effect: %s" % show_eff(e))
                             continue
-                        ty = g.body["locals"][l]["ty"]
-                        if isinstance(ty, dict) and ty.get("mut") and isinstance(ty.get("ref"), dict) and "slice" in ty["ref"]:
-                            if nmn in ("get_mut",) and ai == 0:
-                                continue
-                            if nmn == "copy_from_slice" and ai == 0:
-                                base = go.operand(a, bi, len(blk["s"]))
-                                if g.kind == "closure" and base[0] in ("param",) and base[1] == 2:
-                                    continue
-                            if t["f"].get("path", "").startswith("embedded_graphics_core::pixelcolor::raw::load_store::") and ai <= 1:
-                                continue
-                            bad.append("&mut [u8] passed to %s in %s" % (t["f"].get("path"), g.key()))
-        rep.check(not bad, "R11.7", raw + ":store-writes", "store may write only through the selected slot: " + "; ".join(bad[:3]), status="undecided", at=st.span, fn=st.path)
+                        if tgt is None:
+                            writes_bad.append("unknown effect %s" % show_eff(e))
+                            continue
+                        base = tgt
+                        while base[0] in ("field", "index", "deref"):
+                            base = base[1]
+                        if not (base[0] == "payload" and _is_access(base[1])):
+                            writes_bad.append("write through %s" % show(tgt, maxd=4))
+                            continue
+                        sl = slot(base[1], bits)
+                        if (sl[0], sl[1]) != (want[0], want[1]):
+                            writes_bad.append("write into bytes [%s ; len %s]" % (fmt_lin(sl[0]), sl[1]))
+                    if nm == "store" and not sm.effects and opaque_map is None:
+                        problems.append("store reports success on a path that writes nothing")
+                except Undecided as e:
+                    undecided.append(str(e))
+            if problems:
+                rep.fail("R11.7", key, "; ".join(sorted(set(problems))[:3]), at=f.span, fn=f.path)
+            elif undecided or n_acc == 0 or n_rej == 0:
+                why = "; ".join(sorted(set(undecided))[:3]) or "expected accepting and rejecting paths, found %d / %d" % (n_acc, n_rej)
+                rep.fail("R11.7", key, "cannot derive the byte slot selected by %s: %s" % (nm, why), status="undecided", at=f.span, fn=f.path)
+            else:
+                rep.ok("R11.7", key, at=f.span, fn=f.path, detail={"paths": len(summs), "accepting": n_acc, "rejecting": n_rej, "slots": sorted(map(str, slots_seen))})
+            if nm == "load":
+                rep.sample({"rule": "R11.7", "raw": raw, "paths": len(summs), "accepting": n_acc, "rejecting": n_rej, "slots": sorted(map(str, slots_seen))})
+            else:
+                rep.check(not writes_bad, "R11.7", raw + ":store-writes", "store may write only through the selected slot: " + "; ".join(sorted(set(writes_bad))[:3]), status="undecided" if all("unknown" in w for w in writes_bad) else "refuted", at=f.span, fn=f.path)
